@@ -516,8 +516,15 @@ def run(chk):
     pt, pp, dc = _pt()
     tier = chk.tier
     rng = chk.rng
-    chk.lean_build(['PeptVerif.Props.C20'], DRV)
+    # proforma_dataclasses.py / proforma_parser.py -> Generated/EqCorePy.lean + Props/C20Gen.lean (equality theorems with the hand
+    # model, transfer of the C20 theorems), regenerated when the source changes
+    from .. import translate_eqcore
+    gen_done, gen_unt = translate_eqcore.translate(chk)
+    chk.lean_build(['PeptVerif.Props.C20', 'PeptVerif.Props.C20Gen'], DRV)
     chk.trusted += [
+        'harness/translate_eqcore.py: the reading of the Python subset (comparison chains, None tables, Counter/set comparison, '
+        'key-union loop, any([...]) of `is not None` predicates, filtered dict comprehension, in-place clearing) into the '
+        'combinators of the hand model; its output Generated/EqCorePy.lean is small and committed',
         'modelled: Mod.__eq__, are_mods_equal, Interval.__eq__, are_intervals_equal, ProFormaAnnotation.__eq__, mod_dict, add_mod_dict '
         '(add_*_mods with the append flag), pop_mods, strip, dict, copy, create_annotation with fix_list_of_mods / fix_dict_of_mods / '
         'fix_interval(s)_input, get_mods/add_mods/pop_mods/strip_mods at annotation level',
@@ -1135,7 +1142,7 @@ def run(chk):
         chk.count('modelled_lines_total', rep['lines_of_modelled_functions'])
         chk.count('modelled_lines_executed', rep['lines_executed'])
     if tier == 'thorough':
-        chk.leanchecker(['PeptVerif.Props.C20', 'PeptVerif.Model.AnnotEq', 'PeptVerif.Model.ModDict'])
+        chk.leanchecker(['PeptVerif.Props.C20', 'PeptVerif.Props.C20Gen', 'PeptVerif.Generated.EqCorePy', 'PeptVerif.Model.AnnotEq', 'PeptVerif.Model.ModDict'])
     return chk.finish(classify)
 
 
